@@ -130,9 +130,7 @@ def evaluate(strategy: str, custom, min_voters: int, voters: list[Voter]) -> Ver
             th = Fraction(theta)
             if abs(v.support - th) <= tol and not exact:
                 v.tie = True
-            if v.support <= th - tol:
-                forbid("share-not-above-threshold")
-            elif v.support <= th and exact:
+            if v.support <= th - tol:            # tol is 0 when every term is exactly representable
                 forbid("share-not-above-threshold")
         v.must_permit = all_permit and theta < 1 and ps > 0
     elif strategy == "bayesian":
